@@ -87,7 +87,10 @@ pub fn aborts_for(n: usize, kinds: &[&str]) -> Vec<Abort> {
 
 pub fn run(ctx: &Ctx) -> Outcome {
     let mut out = Outcome::default();
-    let scns: Vec<Scenario> = lib::core().into_iter().map(prepare).collect();
+    let mut scns: Vec<Scenario> = lib::core().into_iter().map(prepare).collect();
+    scns.push(prepare(lib::early_shutdown()));
+    scns.push(prepare(lib::mtu_drop_close(700, None, 6_000)));
+    scns.push(prepare(lib::mtu_drop_close(700, Some(600), 6_000)));
     let n_scn = scns.len();
     for scn in scns.iter().take(n_scn) {
         let base = determinism_check(scn, &Abort::None);
